@@ -112,7 +112,13 @@ var inertDictWriters = map[*ssa.Function]bool{}
 
 func isNamed(t types.Type, name string) bool {
 	n, ok := t.(*types.Named)
-	return ok && n.Obj().Name() == name
+	if !ok {
+		return false
+	}
+	if n.Obj().Name() == name {
+		return true
+	}
+	return curProg != nil && curProg.isPkgType(n, name) // renamed package type (schema.go)
 }
 
 func (c *Ctx) inert() *inertModel {
@@ -216,7 +222,7 @@ func (im *inertModel) neutralCall(call *ssa.Call) bool {
 	if call.Call.IsInvoke() || call.Call.StaticCallee() != nil {
 		return false
 	}
-	if n, ok := call.Call.Value.Type().(*types.Named); ok && n.Obj().Name() == "cmdHandler" {
+	if n, ok := call.Call.Value.Type().(*types.Named); ok && (n.Obj().Name() == "cmdHandler" || (curProg != nil && curProg.isPkgType(n, "cmdHandler"))) {
 		return true
 	}
 	sig, ok := call.Call.Value.Type().Underlying().(*types.Signature)
@@ -379,7 +385,7 @@ func isEmptyDictCtor(g *ssa.Function) bool {
 	r := false
 	if g != nil && g.Signature.Recv() == nil && g.Signature.Params().Len() == 0 && g.Signature.Results().Len() == 1 && len(g.Blocks) > 0 {
 		if p, ok := g.Signature.Results().At(0).Type().(*types.Pointer); ok {
-			if n, ok := p.Elem().(*types.Named); ok && n.Obj().Name() == "redisDict" && returnsFreshAlloc(g) {
+			if n, ok := p.Elem().(*types.Named); ok && (n.Obj().Name() == "redisDict" || (curProg != nil && curProg.isPkgType(n, "redisDict"))) && returnsFreshAlloc(g) {
 				r = true
 				for _, in := range instrsOf(g) {
 					if call, ok := in.(*ssa.Call); ok {
